@@ -264,14 +264,16 @@ class OpCase:
                     continue
                 gr = gradof(t)
                 bad = special(gr) if gr is not None else []
-                out.fact("grad(%s) is finite where an operand entry is exactly 0" % sp.label, gr is not None and not bad,
+                out.fact("grad(%s) is finite %s" % (sp.label, "where an operand entry is exactly 0" if self.variant.get("zero_first")
+                                                    else "on the domain where the operation is smooth with a finite derivative"),
+                         gr is not None and not bad,
                          "non-finite gradient entries %s" % (bad,))
         finally:
             sc.CTX.xr, sc.CTX.rewrite = prev
         return out
 
     def run_vjp(self, env):
-        if self.variant.get("zero_first"):
+        if self.variant.get("zero_first") or self.variant.get("xr"):
             return self.run_zero(env)
         out = E.Outcome()
         specs, ts, arrays, names = self._make_inputs(env, True)
